@@ -20,9 +20,8 @@ MODULES, THEOREMS = get('C07')
 
 
 def snap_k(K):
-    return (tuple(K._next.keys()), tuple((k, id(v), frozenset(v)) for k, v in K._next.items()),
-            tuple((k, id(v), frozenset(v)) for k, v in K._labels.items()), id(K._labels), id(K._next),
-            frozenset(K.S0), id(K.S0))
+    # content of states, transitions, every label set and S0 (the identity of the containers is not part of the property)
+    return ({k: frozenset(v) for k, v in K._next.items()}, {k: frozenset(v) for k, v in K._labels.items()}, frozenset(K.S0))
 
 
 def snap_f(o):
@@ -31,8 +30,8 @@ def snap_f(o):
     out = []
 
     def go(x):
-        out.append((id(x), type(x).__module__, type(x).__name__, getattr(x, 'name', None), getattr(x, '_value', None),
-                    id(getattr(x, '_subformula', None)), len(getattr(x, '_subformula', []) or [])))
+        out.append((type(x).__module__, type(x).__name__, getattr(x, 'name', None), getattr(x, '_value', None),
+                    len(getattr(x, '_subformula', []) or [])))
         for c in getattr(x, '_subformula', []) or []:
             go(c)
     go(o)
